@@ -242,6 +242,14 @@ func upgradeByInlining(c *Ctx, spec *propSpec) {
 				upgraded++
 				continue
 			}
+			// still objected to there: that view's wording is the one about the code as it is (on the plain view the
+			// helper's result is opaque and the message describes that)
+			for _, w := range views[0].obs {
+				if w.Key() == o.Key() && w.Verdict != Held && w.Msg != o.Msg {
+					o.Msg = w.Msg + " [with the new helper(s) it calls walked through; plain view: " + o.Msg + "]"
+					o.Verdict = w.Verdict
+				}
+			}
 		}
 		if os.Getenv("TYPCHECK_TRACE") != "" {
 			for i, v := range views {
